@@ -4,6 +4,8 @@ mod impl_eq;
 #[cfg_attr(doc_cfg, doc(cfg(feature = "serde")))]
 mod impl_serde;
 mod iter;
+#[cfg(brood_verif)]
+mod verif;
 #[cfg(feature = "rayon")]
 mod par_iter;
 
